@@ -2,6 +2,7 @@ package rules
 
 import (
 	"go/token"
+	"sort"
 	"strings"
 
 	"golang.org/x/tools/go/ssa"
@@ -173,5 +174,91 @@ func R2Identity(c *Ctx) {
 		c.R.Ok(rule, FuncShort(pr), "Session.Encryption = {ParseAtLeastBytes(32), ParseAtLeastBytes(16)}", c.pos(pr.Pos()), "key and IV recorded are the 32+16 bytes sent", true)
 	} else {
 		c.R.Bad(rule, FuncShort(pr), "Session.Encryption = {ParseAtLeastBytes(32), ParseAtLeastBytes(16)}", c.pos(pr.Pos()), "the session key/IV stored are not the 32 and 16 bytes read from the registration")
+	}
+}
+
+// R2NameIDFormat — an id is compared with NameID in the spelling NameID is stored in.
+func R2NameIDFormat(c *Ctx) {
+	const rule = "R2-nameid-format"
+	c.R.Rule(rule, "every string that is computed from an integer and compared with (or stored into) Agent.NameID is produced by fmt.Sprintf with the one format the constructors use for NameID (zero-padded 8 hex digits): a different spelling (no padding, upper case, decimal) makes ids below 0x10000000 — or all ids — compare unequal to their own session", 3)
+	isNameIDLoad := func(v ssa.Value) bool {
+		u, ok := v.(*ssa.UnOp)
+		if !ok || u.Op != token.MUL {
+			return false
+		}
+		t, f, _, ok := FieldOf(u.X)
+		return ok && t == PkgAgent+".Agent" && f == "NameID"
+	}
+	// how is a string made from a number?
+	numberSpelling := func(v ssa.Value) (string, bool) {
+		call, ok := v.(*ssa.Call)
+		if !ok {
+			return "", false
+		}
+		switch n := CalleeName(call); n {
+		case "fmt.Sprintf":
+			if f, ok := ConstString(call.Call.Args[0]); ok {
+				return "Sprintf(" + f + ")", true
+			}
+			return "Sprintf(?)", true
+		case "strconv.FormatInt", "strconv.FormatUint", "strconv.Itoa":
+			return n, true
+		}
+		return "", false
+	}
+	formats := map[string]bool{}
+	type site struct {
+		fn   *ssa.Function
+		pos  token.Pos
+		sp   string
+		kind string
+	}
+	var sites []site
+	for _, fn := range c.P.ModuleFuncs(NonYaotl) {
+		for _, b := range fn.Blocks {
+			for _, in := range b.Instrs {
+				switch x := in.(type) {
+				case *ssa.Store:
+					if t, f, _, ok := FieldOf(x.Addr); ok && t == PkgAgent+".Agent" && f == "NameID" {
+						if sp, ok := numberSpelling(x.Val); ok {
+							formats[sp] = true
+							sites = append(sites, site{fn, x.Pos(), sp, "NameID = "})
+						}
+					}
+				case *ssa.BinOp:
+					if x.Op != token.EQL && x.Op != token.NEQ {
+						continue
+					}
+					for _, pr := range [][2]ssa.Value{{x.X, x.Y}, {x.Y, x.X}} {
+						if isNameIDLoad(pr[0]) {
+							if sp, ok := numberSpelling(pr[1]); ok {
+								sites = append(sites, site{fn, x.Pos(), sp, "NameID == "})
+							}
+						}
+					}
+				}
+			}
+		}
+	}
+	if len(formats) != 1 {
+		var fs []string
+		for f := range formats {
+			fs = append(fs, f)
+		}
+		sort.Strings(fs)
+		c.R.Bad(rule, "-", "one spelling of NameID", "-", "the constructors store NameID in "+itoa(len(formats))+" different spellings ("+strings.Join(fs, ", ")+"): sessions created on different paths cannot be compared")
+		return
+	}
+	var want string
+	for f := range formats {
+		want = f
+	}
+	for _, s := range sites {
+		construct := s.kind + s.sp
+		if s.sp == want {
+			c.R.Ok(rule, FuncShort(s.fn), construct, c.pos(s.pos), "the spelling NameID is stored in", true)
+		} else {
+			c.R.Bad(rule, FuncShort(s.fn), construct, c.pos(s.pos), "an id is spelled with "+s.sp+" but NameID is stored as "+want+": the comparison fails for this session's own id whenever the two spellings differ (e.g. ids below 0x10000000)")
+		}
 	}
 }
